@@ -180,6 +180,88 @@ class Fn:
         raise Unsupported(s, 'statement')
 
 
+def select_pass(cls):
+    """Reactor._select: which descriptors are polled, and what is called for each one select() reports, in the source's order.
+    Descriptor lists are pairs (has the socket, has the outbox); select.select is an oracle `sel` intersected with what was
+    asked for; `if X in r and not self.m(): return` calls m only when X was reported (short-circuit `and`)."""
+    fds = [m for m in cls.body if isinstance(m, ast.FunctionDef) and m.name == '_select']
+    if len(fds) != 1 or fds[0].decorator_list or len(fds[0].args.args) != 1:
+        raise Unsupported(cls, '_select')
+    body = [x for x in fds[0].body if not Fn.is_log(x) and not (isinstance(x, ast.Expr) and isinstance(x.value, ast.Constant))]
+
+    def fd(e):
+        if self_attr(e, 'sock'):
+            return 'sock'
+        if self_attr(e, '_outbox'):
+            return 'outbox'
+        raise Unsupported(e, 'descriptor')
+
+    def lit(e):
+        if not isinstance(e, ast.List):
+            raise Unsupported(e, 'descriptor list')
+        have = [fd(x) for x in e.elts]
+        return '(%s, %s)' % ('true' if 'sock' in have else 'false', 'true' if 'outbox' in have else 'false')
+    if len(body) != 7:
+        raise Unsupported(fds[0], '_select has %d statements' % len(body))
+    a, b, c, d = body[0], body[1], body[2], body[3]
+    names = {}
+    for s in (a, b):
+        if not (isinstance(s, ast.Assign) and len(s.targets) == 1 and is_name(s.targets[0])):
+            raise Unsupported(s, 'descriptor list assignment')
+        names[s.targets[0].id] = lit(s.value)
+    if set(names) != {'want_read', 'want_write'}:
+        raise Unsupported(fds[0], 'want_read / want_write')
+
+    def app(s):
+        if not (isinstance(s, ast.Expr) and isinstance(s.value, ast.Call) and is_attr(s.value.func, 'append') and is_name(s.value.func.value)
+                and s.value.func.value.id in names and len(s.value.args) == 1):
+            raise Unsupported(s, 'append')
+        return s.value.func.value.id, fd(s.value.args[0])
+    if not (isinstance(c, ast.If) and self_attr(c.test, '_buffer') and len(c.body) == 1 and len(c.orelse) == 1):
+        raise Unsupported(c, 'if self._buffer')
+    t1, f1 = app(c.body[0])
+    t2, f2 = app(c.orelse[0])
+
+    def upd(target, f):
+        wr = 'fd_add_%s want_read' % f if target == 'want_read' else 'want_read'
+        ww = 'fd_add_%s want_write' % f if target == 'want_write' else 'want_write'
+        return '(%s, %s)' % (wr, ww)
+    if not (isinstance(d, ast.Assign) and isinstance(d.targets[0], ast.Tuple) and [x.id for x in d.targets[0].elts if is_name(x)] == ['r', 'w', 'x']
+            and isinstance(d.value, ast.Call) and is_attr(d.value.func, 'select') and is_name(d.value.func.value, 'select')
+            and len(d.value.args) == 3 and is_name(d.value.args[0], 'want_read') and is_name(d.value.args[1], 'want_write')
+            and isinstance(d.value.args[2], ast.List) and not d.value.args[2].elts and not d.value.keywords):
+        raise Unsupported(d, 'select.select call')
+    calls = []
+    for s in body[4:]:
+        t = s.test if isinstance(s, ast.If) else None
+        if not (isinstance(t, ast.BoolOp) and isinstance(t.op, ast.And) and len(t.values) == 2 and not s.orelse and len(s.body) == 1
+                and isinstance(s.body[0], ast.Return) and s.body[0].value is None):
+            raise Unsupported(s, 'dispatch statement')
+        m, n = t.values
+        if not (isinstance(m, ast.Compare) and len(m.ops) == 1 and isinstance(m.ops[0], ast.In) and is_name(m.comparators[0])
+                and m.comparators[0].id in ('r', 'w') and isinstance(n, ast.UnaryOp) and isinstance(n.op, ast.Not)
+                and isinstance(n.operand, ast.Call) and is_attr(n.operand.func) and is_name(n.operand.func.value, 'self') and not n.operand.args):
+            raise Unsupported(s, 'dispatch condition')
+        which = fd(m.left)
+        proj = ('fst ' if which == 'sock' else 'snd ') + m.comparators[0].id
+        meth = n.operand.func.attr
+        call = {'_socket_read_ready': 'rr', '_outbox_read_ready': '(Reactor_outbox_read_ready go so)',
+                '_socket_write_ready': '(Reactor_socket_write_ready so)'}.get(meth)
+        if call is None:
+            raise Unsupported(s, 'dispatch to %s' % meth)
+        calls.append((proj, call))
+    term = 'pfall'
+    for proj, call in reversed(calls):
+        term = '(pif_call (%s) %s %s)' % (proj, call, term)
+    return ('(* %s: Reactor._select; sel = what select() reports, rr = self._socket_read_ready (the read path, not translated) *)\n'
+            'Definition Reactor_select (sel : fdset * fdset) (rr : PM (option bool)) (go : getout) (so : sendout) : PM (option bool) :=\n'
+            '  pfn (fun s =>\n'
+            '    let want_read := %s in\n    let want_write := %s in\n'
+            "    let '(want_read, want_write) := if negb (bytes_eqb (buffer (rs s)) []) then %s else %s in\n"
+            '    let r := fd_inter want_read (fst sel) in\n    let w := fd_inter want_write (snd sel) in\n'
+            '    %s s).' % (SRC, names['want_read'], names['want_write'], upd(t1, f1), upd(t2, f2), term))
+
+
 def queue_steps():
     """hpfeeds/blocking/queue.py: Queue.put / Queue.get as the sequences of the model's primitive steps (Reactor.qev), in the
     source's order: the superclass put / get, and one wake-up byte sent / received on the socket pair"""
@@ -252,6 +334,7 @@ def main():
             binders += ''.join(' (%s : bytes)' % p for p in params)
             defs.append('(* %s: Reactor.%s *)\nDefinition Reactor_%s%s : PM (option bool) :=\n  pfn %s.'
                         % (SRC, name, name.lstrip('_'), binders, body))
+        defs.append(select_pass(cls[0]))
         defs.extend(queue_steps())
         txt = ('(* GENERATED by harness/pytrans5.py from %s - do not edit *)\n'
                'From Coq Require Import List Bool Arith.\nFrom HP Require Import Bytes Reactor PyReactor.\nImport ListNotations.\n\n'
